@@ -74,6 +74,9 @@ class Ref(object):
 
     def scale(self, rid, k):
         r = self.rxn[rid]
+        if k == 0:
+            r["mets"] = {}          # "no zero-coefficient entries remain": scaling by zero leaves an empty reaction
+            return
         r["mets"] = {m: c * k for m, c in r["mets"].items()}
         if k < 0:
             r["lb"], r["ub"] = -r["ub"], -r["lb"]
